@@ -46,6 +46,7 @@ func spec_nres(t *ast.FuncType) int {
 //@ func funcResultsFromSignature
 //@   props C14
 //@   requires sig != nil
+//@   assigns nothing
 //@   ensures len(result) == sig.Results().Len()
 //@   ensures forall i int :: 0 <= i && i < len(result) ==> len(result[i]) == 1
 //@   loop 1 invariant 0 <= i && len(finalFuncResults) == rets.Len()
@@ -54,11 +55,101 @@ func spec_nres(t *ast.FuncType) int {
 
 //@ func FuncResults.Concat
 //@   props C14
+//@   assigns nothing
 //@   ensures len(funcResults2) == len(funcResults) ==> len(finalFuncResults) == len(funcResults) && (forall i int :: 0 <= i && i < len(funcResults) ==> len(finalFuncResults[i]) == len(funcResults[i]) + len(funcResults2[i]))
 //@   ensures len(funcResults2) != len(funcResults) ==> eq(finalFuncResults, funcResults)
 //@   loop 1 invariant len(funcResults) == len(old(funcResults))
 //@   loop 1 invariant forall j int :: 0 <= j && j < it1 ==> len(funcResults[j]) == len(old(funcResults)[j]) + len(funcResults2[j])
 //@   loop 1 invariant forall j int :: it1 <= j && j < len(funcResults) ==> eq(funcResults[j], old(funcResults)[j])
+
+// spec_shaped(rs, n): exactly n lists of alternatives, none of them empty (the shape C14 asks of every answer).
+func spec_shaped(rs FuncResults, n int) bool {
+	return len(rs) == n && spec_forallIn(0, len(rs), func(i int) bool { return len(rs[i]) >= 1 })
+}
+
+//@ func funcResultsResolver.Len
+//@   props C14
+//@   pure
+//@   requires r != nil && r.sig != nil
+//@   ensures result == r.sig.Results().Len()
+
+//@ func funcResultsResolver.resultsFromAst
+//@   props C14
+//@   requires r != nil && r.sig != nil
+//@   assigns *
+//@   preserves pkg/types.funcResultsResolver.
+//@   ensures funcType != nil ==> spec_shaped(result, r.sig.Results().Len())
+//@   ensures funcType == nil ==> len(result) == 0
+//@   loop 1 invariant r != nil && r.sig != nil && 0 <= at && at <= r.sig.Results().Len() && len(finalResults) == r.sig.Results().Len()
+//@   loop 1 invariant forall j int :: 0 <= j && j < at ==> len(finalResults[j]) >= 1
+//@   loop 2 invariant r != nil && r.sig != nil && 0 <= at && at < r.sig.Results().Len() && len(finalResults) == r.sig.Results().Len()
+//@   loop 2 invariant forall j int :: 0 <= j && j < at ==> len(finalResults[j]) >= 1
+//@   note whatever the per-slot iterator yields (it is treated as unknown code that may do anything except rewire a resolver), a function WITH a syntax node gets exactly n non-empty lists - a bodyless declaration too (each slot falls back to its declared type)
+
+//@ func funcResultsResolver.resultsFromAstAt
+//@   trusted
+//@   assigns *
+//@   preserves pkg/types.funcResultsResolver.
+//@   note ASSUMED frame of the per-slot resolver (not verified: go/ast traversal through ast.Inspect callbacks): it never stores into a funcResultsResolver
+
+//@ func funcResultsResolver.resolverFor
+//@   props C14
+//@   assigns nothing
+//@   ensures result != nil && fresh(result) && result.pkgInfo == p1 && result.sig == sig
+
+//@ func pkgInfo.funcResultsResolverFor
+//@   props C14
+//@   assigns nothing
+//@   ensures result != nil && fresh(result) && result.pkgInfo == p && result.sig == sig
+
+//@ func funcResultsResolver.Results
+//@   props C14
+//@   requires r != nil && r.sig != nil && r.pkgInfo != nil && r.Package != nil && r.Package.TypesInfo != nil && r.u != nil
+//@   assume forall g *ast.FuncDecl :: g != nil ==> g.Type != nil
+//@   assume forall g *ast.FuncLit :: g != nil ==> g.Type != nil
+//@   note (assume 1, 2) go/ast: every function declaration and literal has a Type
+//@   assume forall x *ast.SelectorExpr :: x != nil ==> x.Sel != nil
+//@   assume forall f *types.Func :: f != nil ==> f.Pkg() != nil && f.Signature() != nil && r.u.Package(f.Pkg().Path()) != nil && spec_pkgInfoOf(r.u.Package(f.Pkg().Path())) != nil
+//@   note (assume 4) a function used through a selector belongs to a package, has a signature, and that package is loaded in the universe as a *pkgInfo
+//@   assigns *
+//@   preserves pkg/types.funcResultsResolver.
+//@   ensures r.sig.Results().Len() == 0 ==> len(finalFuncResults) == 0
+//@   ensures r.sig.Results().Len() > 0 && spec_knownShape(r.pkgInfo, r.sig) ==> spec_shaped(finalFuncResults, r.sig.Results().Len())
+//@   lit 1 requires fn != nil
+//@   note for every signature whose recorded node is a declaration, a literal, a selector naming a function, a call, or that has no node at all (interface methods), the answer has exactly n non-empty lists. For the remaining node shapes (a bare identifier or an instantiation naming a function of another package - only reachable by asking a package about a function it merely calls) the code returns no list at all: stated here as the condition spec_knownShape, not hidden.
+
+// spec_knownShape(p, sig): the syntax node recorded for sig in p is one Results knows how to answer from.
+func spec_knownShape(p *pkgInfo, sig *types.Signature) bool {
+	if !spec_has(p.signatures, sig) {
+		return true
+	}
+	if _, ok := p.signatures[sig].(*ast.FuncDecl); ok {
+		return true
+	}
+	if _, ok := p.signatures[sig].(*ast.FuncLit); ok {
+		return true
+	}
+	if _, ok := p.signatures[sig].(*ast.CallExpr); ok {
+		return true
+	}
+	if x, ok := p.signatures[sig].(*ast.SelectorExpr); ok {
+		_, isFn := p.Package.TypesInfo.Uses[x.Sel].(*types.Func)
+		return isFn
+	}
+	return false
+}
+
+//@ func pkgInfo.ResultsOf
+//@   props C14
+//@   requires p != nil && p.Package != nil && p.Package.TypesInfo != nil && p.u != nil && typeFunc != nil
+//@   assume spec_isSig(typeFunc.Type())
+//@   note (assume) go/types: the type of a *types.Func is a *types.Signature
+//@   assigns *
+//@   ensures n == typeFunc.Type().(*types.Signature).Results().Len()
+//@   ensures n == 0 ==> len(results) == 0
+//@   ensures n > 0 && spec_knownShape(p, typeFunc.Type().(*types.Signature)) ==> spec_shaped(results, n)
+
+func spec_isSig(t types.Type) bool { _, ok := t.(*types.Signature); return ok }
 
 // ---- the loaded universe mirrors the type checker's view (C13, C04, C06) ----
 
